@@ -23,13 +23,13 @@ TESTS = {
     "valid_range_test": dict(valid_span=[1.5, 8.5]),
 }
 MODULE = {"gross_range_test": "qartod", "spike_test": "qartod", "valid_range_test": "axds"}
-CTX_KINDS = ("none", "partial", "two")
+CTX_KINDS = ("none", "partial", "two", "partial_then_all")
 CHARS = ("a", "Z", "0", "9", "_", ".", " ", "-", "é")
 
 META = dict(
     rule="runs: PandasStream over a 4-row table (5 thorough) for every set of 1-2 stream ids from {v1, 2x, 'a b', t.emp, "
          "_u, e-acute} x test sets over {qartod.gross_range, qartod.spike, axds.valid_range} x contexts {no window, one partial window, two "
-         "disjoint windows}; for every run EVERY save variant: write_data x write_axes, include / exclude in {None} + "
+         "disjoint windows, a partial window followed by an all-covering one}; for every run EVERY save variant: write_data x write_axes, include / exclude in {None} + "
          "every list of <=2 items over {the stream ids, the test names, the test functions} (one of them at a time, "
          "plus every single-item include x single-item exclude pair), with and without compute_aggregate. Oracle: one "
          "row per input row in order; the result columns are exactly those of the results that pass the filters, named "
@@ -71,6 +71,10 @@ def build_store(case):
         ctxs = [dict(streams=streams)]
     elif case["ctx"] == "partial":
         ctxs = [dict(start=S.T0 + S.DAY, end=S.T0 + 3 * S.DAY, streams=streams)]
+    elif case["ctx"] == "partial_then_all":
+        # a windowed context followed by one that covers every row (which flag wins on the overlap is not judged here:
+        # result columns are compared with the collected results; data and axes must equal the source on every row)
+        ctxs = [dict(start=S.T0 + S.DAY, end=S.T0 + 3 * S.DAY, streams=streams), dict(start=S.T0 - 9 * S.DAY, end=None, streams=streams)]
     else:
         ctxs = [dict(start=None, end=S.T0 + 2 * S.DAY, streams=streams), dict(start=S.T0 + 3 * S.DAY, end=None, streams=streams)]
     cfg = Config(S.make_config(ctxs))
